@@ -460,12 +460,12 @@ func c07Heartbeat(c *core.Ctx) {
 		return
 	}
 	sendRsp := p.Method(pkgPfcp, "PfcpServer", "sendRspTo")
-	calls := core.Calls(fn, sendRsp)
+	calls := p.CallsThrough(fn, sendRsp, 2)
 	if len(calls) != 1 {
 		c.Check("P6", "heartbeat-responds", fn.Pos(), false, fmt.Sprintf("heartbeat handler calls sendRspTo %d times (want 1)", len(calls)))
 		return
 	}
-	send := calls[0]
+	send := calls[0].Site.(ssa.Instruction)
 	core.Instrs(fn, func(in ssa.Instruction) {
 		if r, ok := in.(*ssa.Return); ok {
 			c.Check("P6", "heartbeat-responds", r.Pos(), core.InstrDominates(send, r), "every path of the heartbeat handler passes through sendRspTo")
@@ -478,7 +478,7 @@ func c07Heartbeat(c *core.Ctx) {
 		case *ssa.Lookup:
 			clean = false
 		case ssa.CallInstruction:
-			if f := core.Callee(x); f != nil && p.IsOwn(f.Pkg()) && f != sendRsp {
+			if f := core.Callee(x); f != nil && p.IsOwn(f.Pkg()) && f != sendRsp && ssa.Instruction(x) != send {
 				clean = false
 			}
 		case *ssa.If:
